@@ -103,6 +103,11 @@ RULE["C16"] += "; every 40th case writes and reads a never-simulated FS chain of
 RULE["C18"] += "; on logs longer than 100 steps half of the index lists hold 65-130 steps"
 RULE["C19"] += "; 8 % of the encoder logs have 255-1500 records"
 RULE["C19"] += "; 30 % of the set_last_datetime checks use a date WITH a tzinfo that has daylight-saving time (hand-written rule zone), every date check also demands that the chart row of a task WORKING at the last step only starts on the given date"
+
+for _p in ("C01", "C02", "C03", "C04", "C06", "C07", "C13", "C14", "C12"):
+    RULE[_p] += "; 6 % (C12: 8 %) of the cases with numbers off every decimal grid (work x 1/3, 2/3, 1/7, pi/4, 10/7; skills x 1/3, 2/3, 7/9; rates x 1/3, 1/7; component sizes = capacity/k + delta, delta < 0.001)"
+RULE["C15"] += "; thorough: pause points of long / large models bounded in logical work units (first half, last two, rest sampled)"
+RULE["C17"] += "; thorough: injected runs of large models bounded in logical work units"
 RULE["C20"] += "; every 12th case uses a sub-project that runs for 257 and more steps"
 RULE["C01"] += "; every declared dependency is checked to be present in the built model (both lists)"
 RULE["C06"] += "; pair clause also for a single-task flat component that lies nowhere although a workplace of its task had room throughout the pass"
